@@ -414,6 +414,30 @@ class FnEmit:
                 f.blocks[bi] = (lbl, rows)
             blocks[lbl] = rows
         s.blocks = blocks
+        # emit blocks in reverse post-order so that backward gotos are exactly the loop back-edges (CBMC identifies loops by them)
+        succ = {}
+        for lbl, rows in f.blocks:
+            t = rows[-1] if rows else None
+            ss = []
+            if t is not None:
+                if t.op == 'br': ss = [t.dest] if t.cond is None else [t.t, t.f]
+                elif t.op == 'switch': ss = [t.default] + [l for c, l in t.cases]
+                elif t.op == 'invoke': ss = [t.normal, t.unwind]
+            succ[lbl] = [x.lstrip('%') for x in ss]
+        order = []; seen = set()
+        entry = f.blocks[0][0]
+        stack = [(entry, iter(succ.get(entry, [])))]; seen.add(entry)
+        while stack:
+            n, it = stack[-1]
+            adv = False
+            for m in it:
+                if m not in seen and m in blocks:
+                    seen.add(m); stack.append((m, iter(succ.get(m, [])))); adv = True; break
+            if not adv:
+                order.append(n); stack.pop()
+        order.reverse()
+        rest = [lbl for lbl, rows in f.blocks if lbl not in seen]
+        f.blocks = [(lbl, blocks[lbl]) for lbl in order + rest]
         s.typevals = set()
         if cx.o.max_node_type is not None:
             if 'unodb::node_type' in cx.dem.get(cname(f.name), ''):
